@@ -92,7 +92,13 @@ class Module(object):
         """Canonicalise the tree (ttsa.normalise) and index functions, classes, imports, constants."""
         if ctx is not None and not os.environ.get('TTSA_NO_NORMALISE'):
             from . import normalise
-            self.tree, self.normalised = normalise.normalise(self.tree, ctx, self.name, dict(self.aliases))
+            import copy
+            pristine = copy.deepcopy(self.tree)
+            try:
+                self.tree, self.normalised = normalise.normalise(self.tree, ctx, self.name, dict(self.aliases))
+                compile(self.tree, self.path, 'exec')        # the rewritten tree must still be a valid program
+            except Exception as e:                            # a rewrite went wrong: analyse the source as written
+                self.tree, self.normalised = pristine, {'failed: %s' % type(e).__name__: 1}
         self.funcs = {}        # qualname -> Func
         self.classes = {}      # name -> ast.ClassDef
         self.aliases = {}      # local alias -> package module name
@@ -152,9 +158,30 @@ class Program(object):
             for k, v in m.normalised.items():
                 self.normalised[k] = self.normalised.get(k, 0) + v
 
+    # private helpers are found through the public function that calls them, whatever they are called
+    PRIVATE_VIA = {'_binarize_tree': 'binarize', '_inorder': 'inorder',
+                   '_collapse_unary_chains': 'collapse_unary_chains',
+                   '_uncollapse_unary_chains': 'uncollapse_unary_chains'}
+
     def func(self, module, qual, required=True):
         m = self.modules.get(module)
         f = m.funcs.get(qual) if m else None
+        if f is None and m is not None and qual in self.PRIVATE_VIA:
+            pub = m.funcs.get(self.PRIVATE_VIA[qual])
+            if pub is not None:
+                cands = []
+                for n in walk_own(pub.node):
+                    if isinstance(n, ast.Call):
+                        c = self.callee(n, pub)
+                        if c and c[0] == module and c[1].startswith('_') and c[1] in m.funcs and c[1] not in cands:
+                            cands.append(c[1])
+                rec = [c for c in cands if any(isinstance(x, ast.Call) and self.callee(x, m.funcs[c]) == (module, c)
+                                               for x in walk_own(m.funcs[c].node))]
+                pick = rec if len(rec) == 1 else (cands if len(cands) == 1 else [])
+                if pick:
+                    return m.funcs[pick[0]]
+            if required:
+                raise Unrecognised('private helper %s.%s not found (renamed, inlined or split up)' % (module, qual))
         if f is None and required:
             raise AnalysisError('function %s.%s not found' % (module, qual))
         return f
@@ -847,7 +874,7 @@ def _expand_fact(func, fa, nid, out, at=None):
         for i in (1, 3):
             if fa[i].isidentifier():
                 v = _unique_assign(func, fa[i])
-                if v is not None and (_pure_value(v) or isinstance(v, ast.Call)):
+                if v is not None and not isinstance(v, (ast.Constant, ast.Lambda)):
                     l = list(fa)
                     l[i] = unparse(v)
                     out.append((tuple(l), nid))
